@@ -27,7 +27,7 @@ def main (args : List String) : IO UInt32 := do
       | "C16" => some (do DriverDemux.runC16 t; DriverMux.runC16mux t)
       | "C18" => some (do DriverDemux.runC18r t; DriverMux.runC18w t)
       | "C19" => some (DriverDemux.runC19 t)
-      | "C20" => some (do DriverDemux.runC20 t; DriverDemux.runC20long t)
+      | "C20" => some (do DriverDemux.runC20sizes t; DriverDemux.runC20 t; DriverDemux.runC20long t)
       | "C01" => some (DriverMux.runC01 t)
       | "C04" => some (DriverMux.runC04 t)
       | "C05" => some (DriverMux.runC05 t)
